@@ -4,15 +4,16 @@ stable_pass list. Exit 0 iff every stable test still passes. Prints the missing/
 import json, os, subprocess, sys
 repo = sys.argv[1] if len(sys.argv) > 1 else "/repo"
 base = json.load(open("/root/.vp/BASELINE.json"))
-env = dict(os.environ, GOFLAGS="-mod=mod", GOPROXY="off")
+env = dict(os.environ, GOPROXY="off")
 env.pop("GOSUMDB", None)
+env.pop("GOFLAGS", None)  # the make-app tests run `go build` themselves and choke on GOFLAGS=-mod=mod; pass the flag instead (as BASELINE.json does)
 want = base["stable_pass"]
 status = {}
 # test/gi's make-app tests need test/cl/testplugin/testplugin.so, which another package's tests build
 # and remove while the suite runs (package-level timing race in the suite itself): up to 3 attempts,
 # a test counts as passing if it passed in one of them (BASELINE.json itself is built from 3 runs).
 for attempt in range(3):
-    p = subprocess.run(["go", "test", "-json", "-vet=off", "-count=1", "-timeout", "25m", "./..."], cwd=repo, env=env,
+    p = subprocess.run(["go", "test", "-mod=mod", "-json", "-vet=off", "-count=1", "-timeout", "25m", "./..."], cwd=repo, env=env,
                        stdout=subprocess.PIPE, stderr=subprocess.DEVNULL, text=True)
     for line in p.stdout.split("\n"):
         if not line.startswith("{"):
